@@ -113,6 +113,48 @@ def exc_mro():
     return [(n, [c.__name__ for c in getattr(tp, n).__mro__]) for n in names]
 
 
+def shared_state():
+    """state that outlives one evaluation and is shared by everything that uses the same path
+    object: attributes of vertex / builder / predicate objects assigned outside `__init__`, and
+    `nonlocal` / `global` variables of any function under path/ (closure caches)"""
+    out = set()
+    for sub in ("path/vertex", "path/builder"):
+        d = os.path.join(SRC, sub)
+        for fn in sorted(os.listdir(d)):
+            if not fn.endswith(".py"):
+                continue
+            tree = ast.parse(open(os.path.join(d, fn)).read())
+            for cls in [n for n in ast.walk(tree) if isinstance(n, ast.ClassDef)]:
+                for f in [n for n in cls.body if isinstance(n, (ast.FunctionDef, ast.AsyncFunctionDef))]:
+                    if f.name in ("__init__", "__set_name__"):
+                        continue
+                    for st in ast.walk(f):
+                        targets = []
+                        if isinstance(st, ast.Assign):
+                            targets = st.targets
+                        elif isinstance(st, (ast.AugAssign, ast.AnnAssign)):
+                            targets = [st.target]
+                        flat = []
+                        for t in targets:
+                            flat.extend(t.elts if isinstance(t, (ast.Tuple, ast.List)) else [t])
+                        for x in flat:
+                            while isinstance(x, ast.Subscript):     # self.cache[k] = v mutates self.cache
+                                x = x.value
+                            if isinstance(x, ast.Attribute) and isinstance(x.value, ast.Name) and x.value.id == "self":
+                                out.add(f"{cls.name}.{x.attr}")
+    for root, _, files in os.walk(os.path.join(SRC, "path")):
+        for fn in sorted(files):
+            if not fn.endswith(".py"):
+                continue
+            tree = ast.parse(open(os.path.join(root, fn)).read())
+            for f in [n for n in ast.walk(tree) if isinstance(n, (ast.FunctionDef, ast.AsyncFunctionDef))]:
+                for st in ast.walk(f):
+                    if isinstance(st, (ast.Nonlocal, ast.Global)):
+                        for nm in st.names:
+                            out.add(f"{'nonlocal' if isinstance(st, ast.Nonlocal) else 'global'}:{fn[:-3]}.{f.name}:{nm}")
+    return sorted(out)
+
+
 def lean_str_list(xs):
     return "[" + ", ".join('"' + x.replace('"', '\\"') + '"' for x in xs) + "]"
 
@@ -185,6 +227,19 @@ def excMro : List (String × List String) := [{mrows}]
 end Treepath.Generated
 """)
 
+    def gen_shared():
+        sh = shared_state()
+        write_if_changed(os.path.join(GEN, "Shared.lean"), f"""/- GENERATED by harness/gen_facts.py: attributes of vertex / builder / predicate objects
+assigned outside __init__, and nonlocal / global variables of functions under path/ — the state
+that evaluations sharing a path object share (syntactic) — do not edit -/
+namespace Treepath.Generated
+
+def sharedState : List String := {lean_str_list(sh)}
+
+end Treepath.Generated
+""")
+
+    attempt("Shared", gen_shared)
     attempt("Budget", gen_budget)
     attempt("Reserved", gen_reserved)
     attempt("Stores", gen_stores)
